@@ -939,7 +939,7 @@ pub fn slug(s: &str) -> String {
 
 pub fn gen_params(rng: &mut Rng) -> Params {
     let apr = rng.pick(&["0.1", "0.1", "0.075", "1", "0.33"]).to_string();
-    let unbonding = *rng.pick(&[60u64, 60, 1, 3600]);
+    let unbonding = *rng.pick(&[60u64, 60, 1, 3600, 0]);
     let n = rng.range(2, 3) as usize;
     let pool = ["0", "0.1", "0.33", "0.05", "1", "0.5"];
     let commissions = (0..n).map(|_| rng.pick(&pool).to_string()).collect();
